@@ -42,6 +42,7 @@ def ks(tier):
 def distance(M, kind):
     """distance of M from the group named kind"""
     n = int(kind[2])
+    M = np.asarray(M, dtype=float)
     R = M[:n, :n]
     if np.linalg.det(R) <= 0:
         return float('inf')
@@ -79,6 +80,27 @@ def defects(M, kind, tier):
             B = M.copy()
             B[n, n] = 1 + e
             out.append(('lastrow1', k, B))
+    if np.array_equal(M, np.round(M)):
+        # integer-valued member: the same defects supplied as an INTEGER array (dtype is a container property too)
+        Mi = np.round(M).astype(int)
+        B = Mi.copy()
+        B[n - 1, :n] = -B[n - 1, :n]
+        out.append(('int-refl', None, B))
+        B = Mi.copy()
+        B[0, 1] += 1
+        out.append(('int-entry01', 0, B))
+        if se:
+            B = Mi.copy()
+            B[n, 0] = 1
+            out.append(('int-lastrow0', 0, B))
+            B = Mi.copy()
+            B[n, n] = 2
+            out.append(('int-lastrow1', 0, B))
+        B = Mi.astype(bool) if not se else None
+        if B is not None:
+            B = B.copy()
+            B[0, 1] = True
+            out.append(('bool-entry01', 0, B))
     F = np.eye(M.shape[0])
     F[n - 1, n - 1] = -1
     out.append(('reflL', None, F @ M))
@@ -92,8 +114,12 @@ def defects(M, kind, tier):
     return out
 
 
-def containers(good, bad):
-    return [('bare', lambda: bad.copy()), ('[bad]', lambda: [bad.copy()]), ('[good,bad]', lambda: [good.copy(), bad.copy()]),
+def containers(good, bad, C=None):
+    extra = []
+    if C is not None:
+        # lists that START with an instance of the class (a different dispatch arm of the constructor)
+        extra = [('[obj,bad]', lambda: [C(good.copy()), bad.copy()]), ('(obj,bad,obj)', lambda: (C(good.copy()), bad.copy(), C(good.copy())))]
+    return extra + [('bare', lambda: bad.copy()), ('[bad]', lambda: [bad.copy()]), ('[good,bad]', lambda: [good.copy(), bad.copy()]),
             ('[bad,good]', lambda: [bad.copy(), good.copy()]), ('[good,bad,good]', lambda: [good.copy(), bad.copy(), good.copy()]),
             ('(bad,)', lambda: (bad.copy(),)), ('(good,bad)', lambda: (good.copy(), bad.copy()))]
 
@@ -146,7 +172,7 @@ def ctor_cases(ctx, cname, k, K):
             continue
         for dn, kk, B in defects(M, kind, tier):
             dist = distance(B, kind)
-            for cn, mk in containers(good, B):
+            for cn, mk in containers(good, B, C):
                 cid = 'C07/%s/%s/%s/k=%s/%s' % (cname, gn, dn, kk, cn)
                 if not ctx.want(cid):
                     continue
